@@ -66,14 +66,14 @@ SPECIAL = ['collection-length', 'comma-numeric', 'dollars-and-cents',
 METHODS = ['upper', 'lower', 'strip', 'title', 'casefold', 'swapcase',
            'capitalize', 'lstrip', 'rstrip', 'split', 'rsplit', 'splitlines',
            'format', 'expandtabs', 'encode', 'isdigit', 'zfill']
-CARRIERS = ['qz1234567.5', "q_z %3C'", 'q\nz']
+CARRIERS = ['qz1234567.5', "q_z %3C'", 'q\nz', 'qq\nzz\tqz']
 
 # atoms: (dimension, alternative)
 CFMTS = ['%s!', '%d', '%.2f', '$%.2f each', '%x', '%c', '%5s', '[%r]']
 ATOMS = [('fmt', f) for f in SPECIAL + METHODS + CFMTS] + \
         [('cfmt', c) for c in ('10s', '.3s')] + \
         [('mod:' + m, 1) for m in MODS] + \
-        [('size', n) for n in range(0, 5)] + \
+        [('size', n) for n in range(0, 7)] + \
         [('etc', '~'), ('null', 1), ('missing', 1)] + \
         [('syntax', s) for s in ('ssi', 'epfs', 'entity')] + \
         [('access', 'expr')]
